@@ -147,6 +147,8 @@ reg("C10",
     "Lean (alpha:=R, every L, E, D): closed form of compute_loop_momenta and compute_only_shift (index order of Q^-T, sign of the "
     "shift); the matrix routine's q_transposed_inverse satisfies Q^-1 L Q^-T = 1; at k = c Q^-T q - L^-1 u the weighted propagator "
     "sum of one component is c^2|q|^2 + (p^T X p - u^T L^-1 u), and summed over D components plus masses equals v(1+|q|^2/2 lambda). "
+    "End to end (model_identity): for arbitrary well-formed lists, the model's own chain lMatrix -> decompose -> uVectors -> "
+    "vPolynomial -> loopMomenta returns momenta at which sum_e x_e(|q_e|^2+m_e^2) = v(1+|q|^2/2 lambda) whenever the pivots are positive. "
     "On the real code the scalar identity is evaluated exactly at the returned momenta (incl. loops with u_l = 0, sparse bases).",
     "Rounding measured with condition-scaled tolerance; links between the abstract matrices and the model lists proved by the closed forms.",
     "Lean 4 theorems (Mathlib matrices) + differential correspondence + exact oracle",
